@@ -13,6 +13,16 @@ A_STD1 = 'A-STD1: AsRef<..>::as_ref of the argument types is a pure view'
 A_MEM = 'A-MEM: side conditions `rows * columns <= usize::MAX` / `length + C + 32 <= usize::MAX` (addressable memory) appear as preconditions'
 
 PROPS = {
+    'C05': {
+        'verus': ['encode'],
+        'kani': [],
+        'native': False,
+        'assumptions': [A_E1, A_T1, A_STD1,
+                        'A-ABC1: Symbol::from_ascii is specified by (valid_ascii, of_ascii): Ok(of_ascii(c)) on valid bytes, Err(InvalidSymbol(c as char)) otherwise; discharged for Nucleotide and AminoAcid by the complete (all 256 bytes) Kani harnesses',
+                        'A-W3: assert_eq! on lengths = precondition; A-V2: Vec::set_len leaves arbitrary values (memory safety of that unsafe block: Kani, bounded)',
+                        'SSE2 / AVX2 encoders: bounded Kani stand-ins only'],
+        'explanation': 'Encode::{encode_into, encode_raw, encode} default impls on verbatim bodies: Ok iff all bytes valid, symbol i = of_ascii(byte i), Err carries the FIRST invalid byte',
+    },
     'C01': {
         'verus': ['scores', 'score', 'pwm_score', 'seq', 'stripe'],
         'kani': [],
